@@ -279,7 +279,9 @@ def confirm_unit(ctx, d, res, u, family):
     res.count("failing_sequences")
     res.features.add("failure:" + key)
     res.violation(key, witness="\n".join(unit_lines(cur, "s0")), original="\n".join(unit_lines(u, "s0"))[:600],
-                  detail=curf[1])
+                  detail=curf[1],
+                  replay_case=dict(id="w", kind="unit", seq=list(mseq), prelude=mp, family=family,
+                                   inject=list(minj) if minj else None))
 
 
 def run_exh(ctx, case, res):
@@ -464,6 +466,10 @@ def explain_rand(ctx, d, incs, res, f, pr, st, in_skipped, other_err):
         if key not in reported:
             reported.add(key)
             res.features.add("failure:" + key)
+            w = kw.get("witness", "")
+            # a stand-alone section is its own replay; otherwise the whole generated file is
+            kw["replay_case"] = dict(id="w", kind="text", key=key,
+                                     text=(w + "\n") if w.startswith("#undef") else text + "\n")
             res.violation(key, **kw)
 
     if bad:
